@@ -123,7 +123,7 @@ impl Prop for C04 {
     fn rule(&self) -> String {
         "case = (GameSpy version, entry point query/query_vars, number of parts/packets or explicit cut point); within a case \
          every server state within <= bound field deviations of the default (boundary alphabets for every typed variable, \
-         optional variables present/absent, 0/1/2/64 players with optional per-player keys, 0/1/2/8 teams, extra variables) \
+         optional variables present/absent, 0/1/2/64 players with optional per-player keys, names with inner spaces and with spaces at their ends, 0/1/2/8 teams, extra variables) \
          is encoded by the reference server, delivered in order, and the real query's result must equal the state (typed \
          fields, every player and team in order, unused entries exactly the non-typed variables; GS1 'numplayers' accepted \
          either way). distinct_nontrivial = distinct (outcome class, wire-log shape) pairs"
